@@ -318,6 +318,23 @@ class Lib:
             i = z3.Int(I.path.name('i'))
             I.assign(target, self.arr_item(I, it, i), sc)
             return [i], z3.And(0 <= i, i < it.n)
+        if isinstance(it, SChain):
+            # itertools.chain(a, b, ...): an element of one of the parts (order irrelevant for the consumers supported: set / any / all)
+            x = None
+            doms, vars_ = [], []
+            first = True
+            for part in it.parts:
+                sc2 = Scope(sc)
+                var, dom = self.iter_domain(I, part, target, sc2)
+                val = sc2.lookup(_tname(target)) if isinstance(target, ast.Name) else None
+                if val is None:
+                    raise Undecided('chain with a structured target')
+                if first:
+                    x = I.fresh(val.typ, _tname(target))
+                    first = False
+                doms.append(z3.Exists(var, z3.And(dom, val.t == x.t)))
+            I.assign(target, x, sc)
+            return [x.t], z3.Or(*doms)
         if isinstance(it, SEnumerate):
             inner_t = target.elts[1]
             idx_t = target.elts[0]
@@ -383,12 +400,28 @@ class Lib:
             return xs
         if isinstance(xs, GenExp):
             return self.comprehension(I, xs.node, xs.scope, 'list')
+        if isinstance(xs, SV) and xs.typ.kind in ('Set', 'Map'):
+            # every element exactly once, in an order the contract cannot rely on
+            et = xs.typ.args[0]
+            dom_arr = xs.t if xs.typ.kind == 'Set' else map_dom(xs)
+            out = I.fresh(T('Seq', et), 'listed')
+            k = z3.Const(I.path.name('k'), zsort(et))
+            pos = z3.Function(I.path.name('pos'), zsort(et), z3.IntSort())
+            j = z3.Int(I.path.name('j'))
+            n = seq_len(out)
+            I.path.assume(z3.ForAll([k], z3.Implies(dom_arr[k], z3.And(0 <= pos(k), pos(k) < n, seq_arr(out)[pos(k)] == k))))
+            I.path.assume(z3.ForAll([j], z3.Implies(z3.And(0 <= j, j < n), z3.And(dom_arr[seq_arr(out)[j]], pos(seq_arr(out)[j]) == j))))
+            self.use('list(set): each element exactly once, order unspecified')
+            return out
         raise Undecided(f'list() of {xs!r}')
 
     def b_tuple(self, I, xs=()):
         if isinstance(xs, (list, tuple)):
             return tuple(xs)
         raise Undecided('tuple() of symbolic')
+
+    def b_chain(self, I, *parts):
+        return SChain(parts)
 
     def b_map(self, I, f, xs):
         return SMapped(f, xs)
@@ -1029,7 +1062,7 @@ class Lib:
         if isinstance(recv, str):
             if all(isinstance(a, (str, int)) for a in args):
                 return getattr(recv, name)(*args, **kwargs)
-            if name == 'join' and len(args) == 1 and isinstance(args[0], SV) and args[0].typ.kind == 'Seq':
+            if name == 'join' and len(args) == 1 and isinstance(args[0], SV) and args[0].typ.kind in ('Seq', 'Set'):
                 f = th.func('str_join_' + str(abs(hash(recv)) % 10 ** 6), zsort(args[0].typ), z3.StringSort())
                 self.use('str.join over a symbolic sequence: uninterpreted function of the sequence')
                 return SV(STR, f(args[0].t))
@@ -1239,6 +1272,29 @@ class Lib:
         k = coerce(key if isinstance(key, SV) else lift(key), m.typ.args[0])
         present = map_dom(m)[k.t]
         return I.merge(present, SV(m.typ.args[1], map_val(m)[k.t]), default)
+
+    def _str_fn(self, I, s, name, *args):
+        '''string methods without a theory counterpart: an uninterpreted function of the string (so nothing about the result is known)'''
+        if args:
+            raise Undecided(f'str.{name} with arguments')
+        f = th.func('str_' + name, z3.StringSort(), z3.StringSort())
+        self.use(f'str.{name}: uninterpreted function')
+        return SV(STR, f(s.t))
+
+    def m_Str_strip(self, I, s, *a):
+        return self._str_fn(I, s, 'strip', *a)
+
+    def m_Str_lstrip(self, I, s, *a):
+        return self._str_fn(I, s, 'lstrip', *a)
+
+    def m_Str_rstrip(self, I, s, *a):
+        return self._str_fn(I, s, 'rstrip', *a)
+
+    def m_Str_lower(self, I, s, *a):
+        return self._str_fn(I, s, 'lower', *a)
+
+    def m_Str_upper(self, I, s, *a):
+        return self._str_fn(I, s, 'upper', *a)
 
     def m_Str_encode(self, I, s, *a):
         raise Undecided('str.encode')
@@ -1605,6 +1661,11 @@ class SEnumerate:
 class SZip:
     def __init__(self, xs):
         self.xs = xs
+
+
+class SChain:
+    def __init__(self, parts):
+        self.parts = parts
 
 
 class SMapItems:
